@@ -313,3 +313,26 @@ func TestF30_ReleaseOfADyingFidRemovesItsSuccessor(t *testing.T) {
 		t.Errorf("fid number 5 (two fids in turn) reported destroyed %d times, want twice", n)
 	}
 }
+
+// F-32: a Tflush that names its own tag. The lookup finds the Tflush itself in the tag table, chains
+// it to itself and waits for "the flushed request" — itself — to be answered: no Rflush ever, and the
+// tag stays occupied. (Found by the thorough tier of C04/C05/C12: the sequential histories number
+// their tags 1, 2, 3, … and draw the old tag from a small set.)
+func TestF32_TflushOfItsOwnTagIsNeverAnswered(t *testing.T) {
+	o := &ops{gate: map[string]chan bool{}}
+	c, _ := serve(t, o, 8192, false)
+	version(t, c, 8192, "9P2000")
+	attach(t, c, 1)
+	fl := g.NewFcall(8192)
+	g.PackTflush(fl, 7)
+	send(t, c, fl, 7)
+	c.SetReadDeadline(time.Now().Add(2 * time.Second))
+	r := recv(t, c, false)
+	if r.Type != g.Rflush || r.Tag != 7 {
+		t.Fatalf("Tflush(tag 7, oldtag 7): got type %d tag %d, want Rflush/7", r.Type, r.Tag)
+	}
+	// and the tag is free again
+	if r := rpc(t, c, false, 7, func(fc *g.Fcall) error { return g.PackTstat(fc, 1) }); r.Type != g.Rstat {
+		t.Fatalf("tag 7 reused after the Rflush: %v", r)
+	}
+}
